@@ -84,33 +84,54 @@ impl<'a> ResolveScope<'a> {
         &self,
         name: &str,
     ) -> Option<&'a ValueReference<<Asn<Unresolved> as Target>::ValueReferenceType>> {
+        self.value_reference_within(name, self.scope.len())
+    }
+
+    /// `hops` is the number of imports that may still be followed: a chase that leads through
+    /// more modules than there are in scope runs in a circle and finds nothing
+    fn value_reference_within(
+        &self,
+        name: &str,
+        hops: usize,
+    ) -> Option<&'a ValueReference<<Asn<Unresolved> as Target>::ValueReferenceType>> {
         self.model
             .value_references
             .iter()
             .find(|vr| vr.name.eq(name))
             .or_else(|| {
+                let hops = hops.checked_sub(1)?;
                 self.model_with_imported_item(name).and_then(|model| {
                     ResolveScope {
                         model,
                         scope: self.scope,
                     }
-                    .value_reference(name)
+                    .value_reference_within(name, hops)
                 })
             })
     }
 
     fn definition(&self, name: &str) -> Option<&'a Definition<Asn<Unresolved>>> {
+        self.definition_within(name, self.scope.len())
+    }
+
+    /// see `value_reference_within`
+    fn definition_within(
+        &self,
+        name: &str,
+        hops: usize,
+    ) -> Option<&'a Definition<Asn<Unresolved>>> {
         self.model
             .definitions
             .iter()
             .find(|def| def.name().eq(name))
             .or_else(|| {
+                let hops = hops.checked_sub(1)?;
                 self.model_with_imported_item(name).and_then(|model| {
                     ResolveScope {
                         model,
                         scope: self.scope,
                     }
-                    .definition(name)
+                    .definition_within(name, hops)
                 })
             })
     }
